@@ -113,6 +113,25 @@ class Recorder:
                 iok.append(True)
         d["idxv"] = idxv
         d["iok"] = iok
+        # the index "at any time": explicit queries for past times (0, the middle, now) against the components at that time
+        idxh = []
+        for m in sim.markets:
+            if isinstance(m, IndexMarket):
+                now = m.get_time()
+                comps = m.get_components()
+                for t in sorted({0, now // 2, now}):
+                    if t < 0:
+                        continue
+                    vals = [m.get_index(t), m.get_market_index(t), m.compute_market_index(t)]
+                    num = sum(c.get_market_price(t) * c.outstanding_shares for c in comps)
+                    den = sum(c.outstanding_shares for c in comps)
+                    ok = all(abs(v - num / den) <= 1e-12 * max(1.0, abs(v)) for v in vals)
+                    fnum = sum(c.get_fundamental_price(t) * c.outstanding_shares for c in comps)
+                    fv = m.compute_fundamental_index(t)
+                    ok = ok and abs(fv - fnum / den) <= 1e-12 * max(1.0, abs(fv))
+                    idxh.append([int(m.market_id), int(t), self.fine(m.market_id, vals[0]), bool(ok),
+                                 [self.fine(c.market_id, c.get_market_price(t)) for c in sim.markets]])
+        d["idxh"] = idxh
         return d
 
     def holdings(self):
